@@ -223,6 +223,7 @@ def h_zero(wp, node, args, callee):
 DROP = lambda wp, node, args, obj: V('0', 'Int', 'int')
 MEMBERS = [(r'^update\|(const )?nano::program::solver_t::program_t', h_program_update), (r'^update\|(const )?nano::program::solver_state_t', h_state_update),
            (r'^residual\|(const )?nano::program::solver_state_t', fresh_real('residual')), (r'^solve\|(const )?nano::program::solver_t::program_t', newton.h_program_solve),
+           (r'^info\|(const )?Eigen::LDLT', lambda wp, node, args, obj: wp.fresh('Int', 'ldlt_info', 'int')),     # the factorisation's own status: arbitrary
            (r'^rcond\|', fresh_real('rcond')), (r'^isPositive\|', fresh_bool('positive')), (r'^all_finite\|', fresh_bool('all_finite')),
            (r'^feasible\|(const )?nano::program::solver_t::program_t', fresh_bool('feasible')),
            (r'^(info|warn|error)\|(const )?nano::logger_t', DROP)]
